@@ -217,6 +217,12 @@ func hostFunctionParamTypes(opaqueBegin uintptr, index int) []api.ValueType {
 	return m.TypeSection[m.FunctionSection[index]].Params
 }
 
+// hostFunctionResultTypes returns the result types of the index-th function of the host module.
+func hostFunctionResultTypes(opaqueBegin uintptr, index int) []api.ValueType {
+	m := hostModuleFromOpaque(opaqueBegin)
+	return m.TypeSection[m.FunctionSection[index]].Results
+}
+
 // CallWithStack implements api.Function.
 func (c *callEngine) CallWithStack(ctx context.Context, paramResultStack []uint64) (err error) {
 	if c.sizeOfParamResultSlice > len(paramResultStack) {
@@ -404,6 +410,9 @@ func (c *callEngine) callWithStack(ctx context.Context, paramResultStack []uint6
 				}
 				f.Call(ctx, s)
 			}()
+			// The generated code can use an i32 result as a 64-bit index as is: do not rely on the Go function
+			// having left the upper half of the slot zero.
+			clearUpper32Bits(s, hostFunctionResultTypes(c.execCtx.goFunctionCallCalleeModuleContextOpaque, index))
 			// Back to the native code.
 			c.execCtx.exitCode = wazevoapi.ExitCodeOK
 			afterGoFunctionCallEntrypoint(c.execCtx.goCallReturnAddress, c.execCtxPtr,
@@ -429,6 +438,7 @@ func (c *callEngine) callWithStack(ctx context.Context, paramResultStack []uint6
 				}
 				f.Call(ctx, s)
 			}()
+			clearUpper32Bits(s, def.ResultTypes())
 			// Call Listener.After.
 			listener.After(ctx, callerModule, def, s[:len(def.ResultTypes())])
 			// Back to the native code.
@@ -447,6 +457,7 @@ func (c *callEngine) callWithStack(ctx context.Context, paramResultStack []uint6
 				}
 				f.Call(ctx, mod, s)
 			}()
+			clearUpper32Bits(s, hostFunctionResultTypes(c.execCtx.goFunctionCallCalleeModuleContextOpaque, index))
 			// Back to the native code.
 			c.execCtx.exitCode = wazevoapi.ExitCodeOK
 			afterGoFunctionCallEntrypoint(c.execCtx.goCallReturnAddress, c.execCtxPtr,
@@ -472,6 +483,7 @@ func (c *callEngine) callWithStack(ctx context.Context, paramResultStack []uint6
 				}
 				f.Call(ctx, callerModule, s)
 			}()
+			clearUpper32Bits(s, def.ResultTypes())
 			// Call Listener.After.
 			listener.After(ctx, callerModule, def, s[:len(def.ResultTypes())])
 			// Back to the native code.
